@@ -396,10 +396,68 @@ fn record(seed: u64, n_prog: usize, n_str: usize, out_path: &str) {
         if uses_kern && enc::arr(&prog["kern"]).iter().any(|st| enc::int(&st["cov"]) & 1 == 0) {
             *fam.entry("programs_kern_vertical").or_insert(0) += 1;
         }
+        // combination programs (cursive + marks + ...): what the program and its inputs contain
+        let lookups = enc::arr(&prog["lookups"]);
+        let curs_cov: Vec<i64> = lookups
+            .iter()
+            .filter(|l| enc::int(&l["ty"]) == 3)
+            .flat_map(|l| enc::arr(&l["subs"]).iter().flat_map(|st| enc::ints(&st["cov"]["g"])).collect::<Vec<i64>>())
+            .collect();
+        let mark_cov: Vec<i64> = lookups
+            .iter()
+            .filter(|l| enc::int(&l["ty"]) == 4)
+            .flat_map(|l| enc::arr(&l["subs"]).iter().flat_map(|st| enc::ints(&st["mcov"]["g"])).collect::<Vec<i64>>())
+            .collect();
+        let is_comb = has_gpos && !curs_cov.is_empty() && !mark_cov.is_empty();
+        if is_comb {
+            *fam.entry("programs_comb").or_insert(0) += 1;
+            let rtl_flag = lookups.iter().any(|l| enc::int(&l["ty"]) == 3 && enc::int(&l["flag"]) & 1 == 1);
+            *fam.entry(if rtl_flag { "programs_comb_rtl_flag" } else { "programs_comb_flag_clear" }).or_insert(0) += 1;
+            if uses_kern || lookups.iter().any(|l| enc::int(&l["ty"]) == 2) {
+                *fam.entry("programs_comb_with_kerning").or_insert(0) += 1;
+            }
+            if lookups.iter().any(|l| {
+                enc::int(&l["ty"]) == 1 && enc::arr(&l["subs"]).iter().any(|st| enc::int(&st["vf"]) & 3 != 0)
+            }) {
+                *fam.entry("programs_comb_with_displacement").or_insert(0) += 1;
+            }
+            if lookups.iter().any(|l| enc::int(&l["ty"]) == 6) {
+                *fam.entry("programs_comb_with_markmark").or_insert(0) += 1;
+            }
+        }
         let case = format!("p{}-{}", pi, kind);
         let mut prep = guarded_str(|| prepare(&prog));
         for input in inputs {
             i += 1;
+            if is_comb && tab == "full" {
+                // shape of the INPUT: cursive-covered glyphs (c), mark-covered GDEF marks (m), others (o)
+                let pat: String = enc::arr(&input)
+                    .iter()
+                    .map(|it| {
+                        let g = enc::int(&it["g"]);
+                        if curs_cov.contains(&g) && gdef_class(g) != 3 {
+                            'c'
+                        } else if mark_cov.contains(&g) && gdef_class(g) == 3 {
+                            'm'
+                        } else if gdef_class(g) == 3 {
+                            'x'
+                        } else {
+                            'o'
+                        }
+                    })
+                    .collect();
+                let squeezed: String = pat.chars().filter(|c| *c != 'x').collect();
+                if squeezed.contains("cmc") || squeezed.contains("cmmc") {
+                    *fam.entry("events_input_mark_inside_cursive_pair").or_insert(0) += 1;
+                }
+                if squeezed.contains("cmm") {
+                    *fam.entry("events_input_two_marks_after_cursive_glyph").or_insert(0) += 1;
+                }
+                let bases: String = squeezed.chars().filter(|c| *c != 'm').collect();
+                if bases.contains("ccc") && squeezed.contains("cm") {
+                    *fam.entry("events_input_chain_of_3_with_mark").or_insert(0) += 1;
+                }
+            }
             let o = match &mut prep {
                 Err(e) => json!({"err": format!("load:{}", e), "infos": [], "ltr": [], "rtl": []}),
                 Ok(p) => match guarded_str(|| run_shape(p, &input)) {
